@@ -2,20 +2,34 @@
 
 Streams
   ast   : random abstract ELF descriptions (class × byte order × machine class × OS ABI × core, tables placed
-          anywhere, padded entry sizes, extended-numbering escapes, named and unnamed codes, every section kind)
+          anywhere, padded entry sizes, extended-numbering escapes, named and unnamed codes, every section kind,
+          SHF_COMPRESSED sections with a compression header of the file's class and byte order)
           → bytes by the Lean assembler (Spec.ElfDesc.assemble) → real `ELFFile`; compared with the Spec's
-          observation (property) and with the Lean model of elffile.py run on the same bytes (correspondence)
+          observation (property, inside wfZ) and with the Lean model of elffile.py run on the same bytes
+          (correspondence, inside and outside wfZ)
   raw   : mutated images (truncations, byte substitutions in the header tables) → model vs real, errors included
+  big   : REAL extended numbering on every run: one image with ≥ 0xff00 sections (or the largest table without
+          escape), one with ≥ 0xffff segments, one with ≥ 0xffff segments in the shape of a Linux core dump (one null
+          section header, e_shstrndx = SHN_UNDEF: outside wfZ, inside `extnum_only_partial`), run-length encoded on the
+          wire; one enumeration of each table against the Spec, counts and indexed access at spot indices against
+          the model as well
 """
-import io
+import io, zlib
+import struct as _st
 from common import run_impl, canon, hx, rnd_uint, rnd_bytes
 
 RULE = ('ast: ElfDesc drawn type-directed: cls∈{32,64} × LSB/MSB × 8 machine classes (+unnamed codes) × Solaris/other × core/other; '
         '0..14 sections over every section kind with valid links, 0..6 segments, random region order/gaps, entry sizes padded by 0/8/24, '
-        'escapes forced on small tables (quick) and real ≥0xff00 / ≥0xffff tables (thorough); integers from boundary pools. '
-        'raw: truncation at table boundaries and single-byte substitutions of header-table bytes. '
+        'escapes forced on small tables; SHF_COMPRESSED on 0/15/40 % of the sections of a file (Chdr + payload, Chdr alone, or fewer bytes '
+        'than a Chdr = outside wfZ), the name table included; 5 % files without a name table (known finding); 6 % files with names that are not '
+        'valid UTF-8 (model only); integers from boundary pools. '
+        'big: ≥0xff00 sections / ≥0xffff segments at and around the escape boundaries, both classes and byte orders (quick: 3 images — many sections, many segments, many segments in the shape of a Linux core dump without name table —, thorough: 9 '
+        'plus 4 fully enumerated with lookups). raw: truncation at table boundaries and single-byte substitutions of header-table bytes. '
         'Non-trivial = distinct image with ≥1 section or segment.')
-ASSUMPTIONS = ['io.BytesIO semantics', 'section names are valid UTF-8 without NUL (the library decodes names with errors=replace)']
+ASSUMPTIONS = ['io.BytesIO semantics',
+               'property comparison: section names are valid UTF-8 (the theorems treat names as bytes; the library\'s str API decodes with U+FFFD '
+               'replacement — modelled in Model/Utf8.lean, validated against CPython on every run, and applied by the driver, so the correspondence '
+               'covers every name)']
 
 CLASS_MACHINES = {
     'EM_SPARC': ['EM_SPARC', 'EM_386', 'EM_68K', 'EM_S390', 'EM_SH', 'EM_CRIS', 'EM_M32R', 'EM_MN10300'],
@@ -62,6 +76,7 @@ def gen_desc(rng, big=None):
     phsz = 32 if cls == 32 else 56
     symsz = 16 if cls == 32 else 24
     wbits = cls
+    pk = '<' if le else '>'
 
     def X():     # xword-sized random
         return rnd_uint(rng, wbits)
@@ -69,16 +84,26 @@ def gen_desc(rng, big=None):
     def W():
         return rnd_uint(rng, 32)
 
-    nsec = rng.choice([0, 1, 2, 3, 5, 8, 12, 14]) if big is None else big.get('nsec', 3)
+    nsec = rng.choice([0, 2, 2, 3, 5, 8, 12, 14]) if big is None else big.get('nsec', 3)
+    # a file with sections and NO section-name string table (gABI: e_shstrndx = SHN_UNDEF): every section nameless
+    nonames = big is None and nsec > 0 and rng.random() < 0.05
+    if nonames and rng.random() < 0.3:
+        nsec = 1
     nseg = rng.choice([0, 0, 1, 2, 4, 6]) if big is None else big.get('nseg', 1)
     names_pool = [b'.text', b'.data', b'.stab', b'.shstrtab', b'', b'.a', b'x' * 70, '.ünïcödé'.encode('utf-8'),
                   b'.text', b'.debug_info', b'.note.gnu.build-id', b'.strtab']
+    # names that are not valid UTF-8 (the library reports them decoded with U+FFFD replacement): outside the property
+    # comparison (ASSUMPTIONS), inside the correspondence (the driver decodes the model's names, Model/Utf8.lean)
+    badnames = big is None and rng.random() < 0.06
+    if badnames:
+        names_pool = names_pool[:6] + [b'.bad\xff', b'.bad\xfe', b'.bad\xef\xbf\xbd', b'\xc3', b'.x\xed\xa0\x80', b'.t\xe2\x82', b'.stab\x80',
+                                       b'\xf0\x9f\x98\x80\xf0\x9f\x98']
     secs = []          # dicts: name, type, flags, addr, size, link, info, addralign, entsize, body (bytes or None)
     if nsec > 0:
         secs.append(dict(name=b'', type=0, flags=0, addr=0, size=0, link=0, info=0, addralign=0, entsize=0, body=None))
     # always: one string table for names (the shstrtab) somewhere
     strtab_idx = None
-    if nsec > 1:
+    if nsec > 1 and not nonames:
         strtab_idx = rng.randrange(1, nsec)
     kinds = ['PROGBITS', 'PROGBITS', 'NOTE', 'NOBITS', 'STRTAB', 'SYMTAB', 'DYNSYM', 'REL', 'RELA', 'DYNAMIC', 'SYMTAB_SHNDX',
              'VERNEED', 'VERDEF', 'VERSYM', 'HASH', 'GNU_HASH', 'RELR', 'PROC3', 'PROC1', 'PROC_X', 'UNKNOWN', 'INIT_ARRAY',
@@ -89,7 +114,11 @@ def gen_desc(rng, big=None):
             continue
         k = 'STRTAB' if i == strtab_idx else rng.choice(kinds)
         name = rng.choice(names_pool)
-        if k == 'STAB':
+        if nonames:
+            name = b''
+            if k == 'STAB':
+                k = 'PROGBITS'
+        elif k == 'STAB':
             k, name = 'PROGBITS', b'.stab'
         elif name == b'.stab' and k == 'PROGBITS' and rng.random() < 0.5:
             name = b'.stabx'
@@ -132,8 +161,6 @@ def gen_desc(rng, big=None):
             else:
                 s['link'] = j
         k = s['kind']
-        pk = ('<' if le else '>')
-        import struct as _st
         if k == 'HASH':
             nb, nc = rng.choice([0, 1, 3]), rng.choice([0, 1, 4])
             s['body'] = _st.pack(pk + 'II', nb, nc) + rnd_bytes(rng, 4 * (nb + nc)) + rnd_bytes(rng, rng.choice([0, 3]))
@@ -144,8 +171,44 @@ def gen_desc(rng, big=None):
             s['body'] = b'A' + rnd_bytes(rng, rng.choice([0, 5, 20]))
         if k == 'PROC1' and mclass == 'EM_ARM':
             s['link'] = rng.randrange(0, max(1, nsec))
-    # the shstrtab body: names at offsets (shared suffixes now and then)
-    tab = bytearray(b'\0')
+    # SHF_COMPRESSED sections (gABI "Section compression"): the body begins with an Elf32_Chdr / Elf64_Chdr of the
+    # file's class and byte order.  'ok': header + payload, 'exact': the header alone, 'short': fewer bytes than a
+    # header (outside wfZ: set aside for the property, still compared with the model)
+    def chdr():
+        ch_type = rng.choice([1, 1, 1, 2, 0, 3, 0x60000000, 0x6fffffff, 0x70000001, rnd_uint(rng, 32)])
+        if cls == 32:
+            return _st.pack(pk + 'III', ch_type, W(), W())
+        return _st.pack(pk + 'IIQQ', ch_type, W(), X(), X())
+    zmode = {}
+    zp = rng.choice([0.0, 0.0, 0.15, 0.4]) if big is None else 0.0
+    for i, s in enumerate(secs):
+        if i == 0 or s['kind'] == 'NOBITS' and rng.random() < 0.9:
+            continue
+        onsight = s['kind'] in ('HASH', 'GNU_HASH') or (s['kind'] == 'PROC3' and mclass in ('EM_ARM', 'EM_RISCV'))
+        if rng.random() >= (zp * 0.2 if onsight else zp):
+            continue
+        s['flags'] |= 0x800
+        if i == strtab_idx:
+            zmode[i] = 'ok'               # its body is built below: header, then the names
+            continue
+        zmode[i] = rng.choice(['ok', 'ok', 'ok', 'ok', 'exact', 'short'])
+        hd = chdr()
+        if zmode[i] == 'ok':
+            pay = zlib.compress(rnd_bytes(rng, rng.choice([0, 5, 40]))) if rng.random() < 0.5 else rnd_bytes(rng, rng.choice([1, 9, 30]))
+            body = hd + pay
+            es = s['entsize']
+            if s['kind'] in ('SYMTAB', 'DYNSYM', 'SUNW_LDYNSYM') and es > 0 and len(body) % es:
+                body += bytes(es - len(body) % es)
+        elif zmode[i] == 'exact':
+            body = hd
+        else:
+            body = hd[:rng.randrange(0, len(hd))]
+        if s['kind'] == 'NOBITS' and body:
+            s['kind'], s['type'] = 'PROGBITS', 1        # a NOBITS section has no body to hold the header
+        s['body'] = body
+    # the shstrtab body: names at offsets (shared suffixes now and then); after a compression header if flagged
+    ztab = chdr() if strtab_idx in zmode else b''
+    tab = bytearray(ztab + b'\0')
     name_off = {}
     order = list(range(len(secs)))
     rng.shuffle(order)
@@ -154,13 +217,12 @@ def gen_desc(rng, big=None):
         if nm in name_off and rng.random() < 0.7:
             continue
         if nm == b'':
-            name_off[nm] = rng.choice([0, len(tab) - 1]) if len(tab) > 0 else 0
+            name_off[nm] = rng.choice([len(ztab), len(tab) - 1])
             continue
         name_off[nm] = len(tab)
         tab += nm + b'\0'
     if strtab_idx is not None:
         secs[strtab_idx]['body'] = bytes(tab) + rnd_bytes(rng, rng.choice([0, 0, 3]))
-        secs[strtab_idx]['flags'] &= ~0x800
     shstrndx = strtab_idx if strtab_idx is not None else 0
     # sizes
     for s in secs[1:]:
@@ -177,7 +239,7 @@ def gen_desc(rng, big=None):
         segs.append(dict(p_type=t, p_offset=X(), p_vaddr=X(), p_paddr=X(), p_filesz=X(), p_memsz=X(), p_flags=W(), p_align=X()))
     # escapes
     xShnum = nsec > 0 and (rng.random() < 0.15 or nsec >= 0xff00)
-    xShstr = nsec > 0 and (rng.random() < 0.15 or shstrndx >= 0xff00)
+    xShstr = nsec > 0 and not nonames and (rng.random() < 0.15 or shstrndx >= 0xff00)
     xPh = nsec > 0 and (rng.random() < 0.15 or nseg >= 0xffff)
     if nsec > 0:
         if xShnum: secs[0]['size'] = nsec
@@ -224,9 +286,13 @@ def gen_desc(rng, big=None):
                            'p_filesz': p['p_filesz'], 'p_memsz': p['p_memsz'], 'p_align': p['p_align']})) for p in segs],
         'shstrndx': shstrndx, 'xShnum': bool(xShnum), 'xShstrndx': bool(xShstr), 'xPhnum': bool(xPh),
     }
-    queries = sorted({s['name'] for s in secs} | {b'.nonexistent', b'.tex', b'.textx'})
+    # queries are `str` for the library: every name as the library reports it (decoded with replacement, re-encoded)
+    queries = sorted({s['name'].decode('utf-8', errors='replace').encode('utf-8') for s in secs} | {b'.nonexistent', b'.tex', b'.textx'})
     has_dyn_seg = any(p['p_type'] == 2 for p in segs)
-    return ast, [hx(q) for q in queries], {'nsec': len(secs), 'nseg': len(segs), 'mclass': mclass, 'dynseg': has_dyn_seg}
+    zkind = 'none' if not zmode else ('short' if 'short' in zmode.values() else 'full')
+    return ast, [hx(q) for q in queries], {'nsec': len(secs), 'nseg': len(segs), 'mclass': mclass, 'dynseg': has_dyn_seg,
+                                           'z': zkind, 'nz': len(zmode), 'ztab': strtab_idx in zmode, 'nonames': nonames,
+                                           'badnames': any(s['name'].decode('utf-8', errors='replace').encode('utf-8') != s['name'] for s in secs)}
 
 
 def impl_observe(data, queries):
@@ -243,16 +309,13 @@ def impl_observe(data, queries):
     segs = [[type(s).__name__, canon(s.header)] for s in f.iter_segments()]
     if f.num_segments() != len(segs):
         raise AssertionError('num_segments disagrees with iter_segments')
+    # lookups by name, each through its own public function: [get_section_index, has_section, get_section_by_name]
     look = []
     for q in queries:
         name = bytes.fromhex(q).decode('utf-8')
-        idx = f.get_section_index(name)
         sec = f.get_section_by_name(name)
-        if (sec is None) != (idx is None) or f.has_section(name) != (idx is not None):
-            raise AssertionError('lookup functions disagree')
-        if sec is not None and (sec.name != name or canon(sec.header) != secs[idx][2]):
-            raise AssertionError('get_section_by_name returned a different section')
-        look.append(idx)
+        look.append([f.get_section_index(name), f.has_section(name),
+                     None if sec is None else [type(sec).__name__, {'b': sec.name.encode('utf-8').hex()}, canon(sec.header)]])
     return {'elfclass': f.elfclass, 'little_endian': f.little_endian, 'header': canon(f.header), 'sections': secs,
             'segments': segs, 'lookup': look}
 
@@ -263,7 +326,8 @@ def run_ast(ctx):
     cases = [gen_desc(rng) for _ in range(n)]
     reqs = [{'p': 'C01', 'k': 'ast', 'ast': a, 'queries': q, 'tail': rng.choice([0, 0, 5])} for a, q, _ in cases]
     if ctx.tier == 'thorough':
-        # real extended numbering: ≥ 0xff00 sections / ≥ 0xffff segments (model skipped: List-based reads are quadratic)
+        # real extended numbering, full enumeration and lookups: ≥ 0xff00 sections / ≥ 0xffff segments (model skipped:
+        # List-based reads are quadratic; the quick-tier `big` stream runs the model at spot indices)
         for big in ({'nsec': 0xff00, 'nseg': 1}, {'nsec': 0xff01, 'nseg': 2}, {'nsec': 3, 'nseg': 0xffff}, {'nsec': 0x10005, 'nseg': 0x10001}):
             a, q, meta = gen_desc(rng, big)
             cases.append((a, q, meta))
@@ -272,14 +336,48 @@ def run_ast(ctx):
     for (a, q, meta), rq, r in zip(cases, reqs, replies):
         if 'fatal' in r:
             raise RuntimeError('driver: %s' % r['fatal'])
-        if not r.get('wf'):
-            ctx.out.count('ast:not-wf')
+        case = {'ast': a, 'queries': rq['queries'], 'tail': rq['tail']}
+        if 'bytes' not in r:
+            ctx.out.count('ast:not-encodable')
             continue
         data = bytes.fromhex(r['bytes'])
+        if not r.get('wf'):
+            # outside the theorems' domain (wfZ): never compared with `expect`; the model mirrors the code on every byte
+            # string, so the correspondence still has to hold
+            if r.get('wfN'):
+                # … except the well-formed files WITHOUT a section-name string table (Spec/ElfNoNames.lean): the property
+                # covers them, no theorem does: known finding `no-name-table`
+                ctx.out.count('ast:no-name-table')
+                impl = run_impl(lambda: impl_observe(data, rq['queries']))
+                if impl != r['expect']:
+                    ctx.out.violation('property', 'ast', case, expect=r['expect'], got=impl, model=r.get('model'))
+            ctx.out.count('ast:not-wf:z=' + meta['z'])
+            if r.get('model') is not None and not _too_many(data):
+                impl = run_impl(lambda: impl_observe(data, rq['queries']))
+                ctx.out.count('ast:not-wf:' + ('ok' if 'ok' in impl else impl['err']))
+                ctx.out.case({'bytes_sha': hx(data[:64]), 'n': len(data), 'nsec': meta['nsec'], 'notwf': True}, nontrivial=False)
+                if impl != r['model']:
+                    ctx.out.violation('correspondence', 'ast', case, got=impl, model=r['model'])
+            continue
+        if meta['badnames']:
+            # inside wfZ, but some name is not valid UTF-8: the theorems hold (names are bytes there); what the `str` API
+            # reports is compared with the model only
+            ctx.out.count('ast:non-utf8-names')
+            impl = run_impl(lambda: impl_observe(data, rq['queries']))
+            ctx.out.case({'bytes_sha': hx(data[:64]), 'n': len(data), 'nsec': meta['nsec'], 'badnames': True})
+            if r.get('model') is not None and impl != r['model']:
+                ctx.out.violation('correspondence', 'ast', case, got=impl, model=r['model'])
+            continue
         impl = run_impl(lambda: impl_observe(data, rq['queries']))
         ctx.out.count('ast:nsec=%d' % min(meta['nsec'], 15))
         ctx.out.count('ast:mclass=' + meta['mclass'])
-        case = {'ast': a, 'queries': rq['queries'], 'tail': rq['tail']}
+        # wf0: inside `wf` (no SHF_COMPRESSED section, theorems *_exact); otherwise inside wfZ only (theorems *_exact_z)
+        ctx.out.count('ast:domain=' + ('wf' if meta['nz'] == 0 else 'wfZ-only'))
+        ctx.out.count('ast:compressed-sections=%d' % min(meta['nz'], 4))
+        if meta['ztab']:
+            ctx.out.count('ast:compressed-shstrtab')
+        if r.get('wf0') is not None and bool(r['wf0']) != (meta['nz'] == 0):
+            raise RuntimeError('wf / wfZ disagree with the generator about SHF_COMPRESSED: %r' % (meta,))
         ctx.out.case({'bytes_sha': hx(data[:64]), 'n': len(data), 'nsec': meta['nsec']}, nontrivial=meta['nsec'] + meta['nseg'] > 0)
         if len(ctx.out.samples) <= 3 and len(r['bytes']) < 3000:
             ctx.out.samples[-1] = {'ast': a}
@@ -288,6 +386,225 @@ def run_ast(ctx):
         elif r.get('model') is not None and impl != r['model']:
             ctx.out.violation('correspondence', 'ast', case, got=impl, model=r['model'])
     return [(rq, r) for rq, r in zip(reqs, replies) if r.get('wf') and len(r['bytes']) < 20000]
+
+
+# ---------------------------------------------------------------------------- real extended numbering, every run
+def gen_big(rng, which):
+    """A description with a REAL large table, run-length encoded (long runs of one filler entry, tiny bodies).
+    which='sec': ≥ 0xff00 sections (e_shnum = 0 / sh_size[0], and from 0xff02 on the name table index by SHN_XINDEX /
+    sh_link[0]) or the largest table that needs no escape; which='seg': ≥ 0xffff segments (PN_XNUM / sh_info[0]) or the
+    largest table that needs none; which='core': the same with the sections of a Linux core dump (gen_big_core)."""
+    cls = rng.choice([32, 64])
+    le = rng.random() < 0.5
+    wbits = cls
+
+    def X():
+        return rnd_uint(rng, wbits)
+
+    def W():
+        return rnd_uint(rng, 32)
+    if which == 'sec':
+        nsec, nseg = rng.choice([0xff00, 0xff00, 0xff02, 0xff02, 0xfeff, 0xff05, 0x10001]), rng.choice([3, 4])
+    else:
+        nsec, nseg = rng.choice([4, 5]), rng.choice([0xffff, 0xffff, 0xfffe, 0x10000, 0x10001])
+        if which == 'core':
+            return gen_big_core(rng, cls, le, nseg)
+    # the name table: the last section but one, so that its index needs SHN_XINDEX from 0xff02 sections on
+    # (0xff00 sections: index 0xfefe, the largest that does not)
+    strtab_idx = nsec - 2
+    names = [b'.b', b'.shstrtab', b'.last', b'']
+    tab = b'\0' + b'\0'.join(names[:3]) + b'\0'
+    off = {nm: (tab.index(nm + b'\0') if nm else 0) for nm in names}
+    shsz = 40 if cls == 32 else 64
+    phsz = 32 if cls == 32 else 56
+    ehsize = 52 if cls == 32 else 64
+    shentsize = shsz + rng.choice([0, 0, 8])
+    phentsize = phsz + rng.choice([0, 0, 8])
+    order = rng.choice(['sh-ph-tab', 'tab-ph-sh', 'ph-tab-sh'])
+    pos = ehsize + rng.choice([0, 4])
+    shoff = phoff = taboff = 0
+    for r in order.split('-'):
+        pos += rng.choice([0, 0, 3, 8])
+        if r == 'sh':
+            shoff = pos; pos += shentsize * nsec
+        elif r == 'ph':
+            phoff = pos; pos += phentsize * nseg
+        else:
+            taboff = pos; pos += len(tab)
+
+    def sec(name, type=1, flags=0, addr=0, offset=0, size=0, link=0, info=0, addralign=0, entsize=0, body=None):
+        return {'name': hx(name), 'nameOff': off[name],
+                'hdr': R(sh_type=type, sh_flags=flags, sh_addr=addr, sh_offset=offset, sh_size=size, sh_link=link, sh_info=info,
+                         sh_addralign=addralign, sh_entsize=entsize), 'body': hx(body) if body else None}
+    xShnum = nsec >= 0xff00 or rng.random() < 0.2
+    xShstr = strtab_idx >= 0xff00 or rng.random() < 0.2
+    xPh = nseg >= 0xffff or rng.random() < 0.2
+    sec0 = sec(b'', type=0, size=nsec if xShnum else rng.choice([0, X()]), link=strtab_idx if xShstr else rng.choice([0, W()]),
+               info=nseg if xPh else rng.choice([0, W()]))
+    filler = sec(b'.b', type=rng.choice([1, 1, 8, 7, 0x12345678]), flags=X() & ~0x800, addr=X(), offset=X(), size=0, link=W(), info=W(),
+                 addralign=X(), entsize=X())
+    strtab = sec(b'.shstrtab', type=3, offset=taboff, size=len(tab), body=tab)
+    last = sec(b'.last', type=rng.choice([1, 14, 0x70000005]), flags=X() & ~0x800, addr=X(), offset=X(), link=W(), info=W(),
+               addralign=X(), entsize=X())
+    sections = [sec0, {'rep': nsec - 3, 'sec': filler}, strtab, last]
+
+    def seg(t):
+        p = dict(p_type=t, p_offset=X(), p_vaddr=X(), p_paddr=X(), p_filesz=X(), p_memsz=X(), p_flags=W(), p_align=X())
+        keys = (['p_type', 'p_offset', 'p_vaddr', 'p_paddr', 'p_filesz', 'p_memsz', 'p_flags', 'p_align'] if cls == 32 else
+                ['p_type', 'p_flags', 'p_offset', 'p_vaddr', 'p_paddr', 'p_filesz', 'p_memsz', 'p_align'])
+        return R(**{k: p[k] for k in keys})
+    segments = [seg(6), {'rep': nseg - 3, 'seg': seg(1)}, seg(rng.choice([4, 0x6474e551, 0x12345])), seg(rng.choice([1, 7, 0x70000001]))]
+    M = machine_choices()
+    e_machine = M[rng.choice(['EM_386', 'EM_PPC64', 'EM_S390', 'EM_IA_64', 'EM_PPC'])]
+    ast = {
+        'cls': cls, 'le': le, 'mclass': 'EM_SPARC' if e_machine in (M['EM_386'], M['EM_S390']) else 'default', 'solaris': False, 'core': False,
+        'ehdr': R(EI_VERSION=1, EI_OSABI=rng.choice([0, 3, 9]), EI_ABIVERSION=rng.randrange(256), e_type=rng.choice([1, 2, 3]),
+                  e_machine=e_machine, e_version=1, e_entry=X(), e_flags=W(), e_ehsize=ehsize),
+        'shoff': shoff, 'phoff': phoff, 'shentsize': shentsize, 'phentsize': phentsize,
+        'sections': sections, 'segments': segments,
+        'shstrndx': strtab_idx, 'xShnum': bool(xShnum), 'xShstrndx': bool(xShstr), 'xPhnum': bool(xPh),
+    }
+    # indexed access (and the model, whose List-based reads cost O(offset) each) at a few indices only
+    sec_idx = sorted({0, 0xfeff, 0xff00, strtab_idx, nsec - 1} & set(range(nsec)))
+    seg_idx = sorted({0, 0xfffe, 0xffff, nseg - 1} & set(range(nseg)))
+    return ast, sec_idx, seg_idx, {'nsec': nsec, 'nseg': nseg, 'cls': cls}
+
+
+def gen_big_core(rng, cls, le, nseg):
+    """The ≥ 0xffff-segment file as it occurs in practice: a core dump as the Linux kernel writes it (fs/binfmt_elf.c
+    fill_extnum_info) — e_type = ET_CORE, ONE section header (SHT_NULL, sh_size = 1, sh_link = 0, sh_info = the segment
+    count), e_shnum = 1, e_shstrndx = SHN_UNDEF: no section-name string table.  Outside wfZ, inside the domain of the
+    theorem `extnum_only_partial` (everything exact, name of the null section aside)."""
+    wbits = cls
+
+    def X():
+        return rnd_uint(rng, wbits)
+
+    def W():
+        return rnd_uint(rng, 32)
+    shsz, phsz, ehsize = (40, 32, 52) if cls == 32 else (64, 56, 64)
+    # the kernel puts the program headers right after the ELF header and the section header at the end; vary
+    if rng.random() < 0.5:
+        phoff = ehsize
+        shoff = phoff + phsz * nseg + rng.choice([0, 0, 4096])
+    else:
+        shoff = ehsize + rng.choice([0, 8])
+        phoff = shoff + shsz + rng.choice([0, 0, 16])
+    xPh = nseg >= 0xffff or rng.random() < 0.5
+    sec0 = {'name': '', 'nameOff': 0,
+            'hdr': R(sh_type=0, sh_flags=0, sh_addr=0, sh_offset=0, sh_size=1, sh_link=0, sh_info=nseg if xPh else 0, sh_addralign=0,
+                     sh_entsize=0), 'body': None}
+
+    def seg(t):
+        p = dict(p_type=t, p_offset=X(), p_vaddr=X(), p_paddr=X(), p_filesz=X(), p_memsz=X(), p_flags=W() & 7, p_align=rng.choice([0, 1, 4096]))
+        keys = (['p_type', 'p_offset', 'p_vaddr', 'p_paddr', 'p_filesz', 'p_memsz', 'p_flags', 'p_align'] if cls == 32 else
+                ['p_type', 'p_flags', 'p_offset', 'p_vaddr', 'p_paddr', 'p_filesz', 'p_memsz', 'p_align'])
+        return R(**{k: p[k] for k in keys})
+    segments = [seg(4), {'rep': nseg - 3, 'seg': seg(1)}, seg(1), seg(rng.choice([1, 1, 0x12345]))]
+    M = machine_choices()
+    e_machine = M[rng.choice(['EM_PPC64', 'EM_IA_64', 'EM_PPC', 'EM_S390'])]
+    ast = {
+        'cls': cls, 'le': le, 'mclass': 'EM_SPARC' if e_machine == M['EM_S390'] else 'default', 'solaris': False, 'core': True,
+        'ehdr': R(EI_VERSION=1, EI_OSABI=rng.choice([0, 0, 3]), EI_ABIVERSION=0, e_type=4, e_machine=e_machine, e_version=1, e_entry=0,
+                  e_flags=W(), e_ehsize=ehsize),
+        'shoff': shoff, 'phoff': phoff, 'shentsize': shsz, 'phentsize': phsz,
+        'sections': [sec0], 'segments': segments,
+        'shstrndx': 0, 'xShnum': False, 'xShstrndx': False, 'xPhnum': bool(xPh),
+    }
+    seg_idx = sorted({0, 0xfffe, 0xffff, nseg - 1} & set(range(nseg)))
+    return ast, [0], seg_idx, {'nsec': 1, 'nseg': nseg, 'cls': cls, 'core': True}
+
+
+def _rle(items):
+    out = []
+    for x in items:
+        if out and out[-1][1] == x:
+            out[-1][0] += 1
+        else:
+            out.append([1, x])
+    return out
+
+
+def impl_observe_big(data, sec_idx, seg_idx):
+    """One enumeration of each table (run-length encoded), both counts, indexed access at the spot indices."""
+    from elftools.elf.elffile import ELFFile
+    f = ELFFile(io.BytesIO(data))
+
+    def osec(s):
+        return [type(s).__name__, {'b': s.name.encode('utf-8').hex()}, canon(s.header)]
+
+    def oseg(s):
+        return [type(s).__name__, canon(s.header)]
+    return {'elfclass': f.elfclass, 'little_endian': f.little_endian, 'header': canon(f.header),
+            'nsec': f.num_sections(), 'nseg': f.num_segments(),
+            'sections': _rle(osec(s) for s in f.iter_sections()), 'segments': _rle(oseg(s) for s in f.iter_segments()),
+            'secAt': [osec(f.get_section(i)) for i in sec_idx], 'segAt': [oseg(f.get_segment(i)) for i in seg_idx]}
+
+
+_SPOT = ('elfclass', 'little_endian', 'header', 'nsec', 'nseg', 'secAt', 'segAt')
+
+
+def _spot(res):
+    return {'ok': {k: res['ok'][k] for k in _SPOT}} if 'ok' in res else res
+
+
+def check_big(ctx, case):
+    r = ctx.driver.ask({'p': 'C01', 'k': 'big', 'ast': case['ast'], 'secIdx': case['secIdx'], 'segIdx': case['segIdx']})
+    if 'fatal' in r:
+        raise RuntimeError('driver: %s' % r['fatal'])
+    if not (r.get('wf') or r.get('wfX')):
+        return r, None
+    data = bytes.fromhex(r['bytes'])
+    impl = run_impl(lambda: impl_observe_big(data, case['secIdx'], case['segIdx']))
+    return r, impl
+
+
+def _nameless(res):
+    """an observation with every section name blanked: what `extnum_only_partial` proves for the files without a name table"""
+    if 'ok' not in res:
+        return res
+    o = dict(res['ok'])
+    if 'sections' in o:
+        o['sections'] = [[n, [s[0], None, s[2]]] for n, s in o['sections']]
+    o['secAt'] = [[s[0], None, s[2]] for s in o['secAt']]
+    return {'ok': o}
+
+
+def _big_fails(r, impl):
+    """(kind of failure or None): the property comparison is the full one inside wfZ and the name-blind one inside wfX"""
+    if r.get('wf'):
+        if impl != r['expect']:
+            return 'property'
+    elif _nameless(impl) != _nameless(r['expect']):
+        return 'property'
+    if _spot(impl) != r['model']:
+        return 'correspondence'
+    return None
+
+
+def run_big(ctx):
+    rng = ctx.rng('big')
+    for k in range(ctx.budget(3, 9)):
+        ast, sec_idx, seg_idx, meta = gen_big(rng, ('sec', 'seg', 'core')[k % 3])
+        case = {'ast': ast, 'secIdx': sec_idx, 'segIdx': seg_idx}
+        r, impl = check_big(ctx, case)
+        if impl is None:
+            ctx.out.count('big:not-wf')
+            continue
+        ctx.out.count('big:nsec=%#x,nseg=%#x,elf%d%s' % (meta['nsec'], meta['nseg'], meta['cls'], ',kernel-core-shape' if meta.get('core') else ''))
+        ctx.out.count('big:domain=' + ('wfZ' if r.get('wf') else 'extnumOnly'))
+        ctx.out.case({'big': [meta['nsec'], meta['nseg'], meta['cls'], ast['le'], ast['shoff'], ast['phoff']]})
+        kind = _big_fails(r, impl)
+        if kind == 'property':
+            ctx.out.violation('property', 'big', case, expect=_brief(r['expect']), got=_brief(impl), model=_brief(r['model']))
+        elif kind == 'correspondence':
+            ctx.out.violation('correspondence', 'big', case, got=_brief(_spot(impl)), model=_brief(r['model']))
+
+
+def _brief(res):
+    """violation records are written to replay files: keep the run-length encoded form, cut anything long"""
+    t = repr(res)
+    return res if len(t) < 20000 else t[:20000] + '…'
 
 
 def run_raw(ctx, seeds):
@@ -327,14 +644,9 @@ def run_raw(ctx, seeds):
         m = r['model']
         ctx.out.count('raw:' + ('ok' if 'ok' in impl else impl['err']))
         ctx.out.case({'raw_sha': hx(data[:48]), 'n': len(data)})
+        if 'ok' in impl and any('efbfbd' in x[1]['b'] for x in impl['ok']['sections']):
+            ctx.out.count('raw:names-with-U+FFFD')
         if impl != m:
-            # names that are not valid UTF-8 are outside the model (decode with errors=replace)
-            if 'err' in impl and impl['err'] == 'unicodeError':
-                ctx.out.count('raw:skipped-non-utf8')
-                continue
-            if 'ok' in impl and 'ok' in m and _only_names_differ(impl['ok'], m['ok']):
-                ctx.out.count('raw:skipped-non-utf8')
-                continue
             ctx.out.violation('correspondence', 'raw', {'hex': rq['hex']}, got=impl, model=m)
 
 
@@ -351,46 +663,80 @@ def _too_many(data, cap=2000):
         return False
 
 
-def _only_names_differ(a, b):
-    """True when the two observations agree except for section names containing U+FFFD (invalid UTF-8 in the file)."""
-    try:
-        if {k: v for k, v in a.items() if k != 'sections'} != {k: v for k, v in b.items() if k != 'sections'}:
-            return False
-        if len(a['sections']) != len(b['sections']):
-            return False
-        repl = '�'.encode('utf-8').hex()
-        diff = False
-        for x, y in zip(a['sections'], b['sections']):
-            if x[2] != y[2]:
-                return False
-            if x[1] != y[1] or x[0] != y[0]:
-                if repl not in x[1]['b']:
-                    return False
-                diff = True
-        return diff
-    except Exception:
-        return False
+def run_utf8(ctx):
+    """Model/Utf8.lean (names as the library's `str` API reports them) against CPython's own decoder."""
+    rng = ctx.rng('utf8')
+    pool = [0x00, 0x41, 0x7f, 0x80, 0x8f, 0x90, 0x9f, 0xa0, 0xbf, 0xc0, 0xc1, 0xc2, 0xdf, 0xe0, 0xe1, 0xec, 0xed, 0xee, 0xef, 0xf0, 0xf1,
+            0xf3, 0xf4, 0xf5, 0xf7, 0xf8, 0xff]
+    cases = [bytes(rng.choice(pool) if rng.random() < 0.8 else rng.randrange(256) for _ in range(rng.randrange(0, 9)))
+             for _ in range(ctx.budget(400, 20000))]
+    replies = ctx.driver.ask_many([{'p': 'C01', 'k': 'utf8', 'hex': hx(c)} for c in cases])
+    for c, r in zip(cases, replies):
+        if 'fatal' in r:
+            raise RuntimeError('driver: %s' % r['fatal'])
+        got = hx(c.decode('utf-8', errors='replace').encode('utf-8'))
+        ctx.out.count('utf8:' + ('valid' if got == hx(c) else 'replaced'))
+        ctx.out.case({'utf8': hx(c)}, nontrivial=False)
+        if got != r['out']:
+            ctx.out.violation('correspondence', 'utf8', {'hex': hx(c)}, got=got, model=r['out'])
 
 
 def run(ctx):
     seeds = run_ast(ctx)
     if seeds:
         run_raw(ctx, seeds)
+    run_big(ctx)
+    run_utf8(ctx)
 
 
 def replay(ctx, payload):
     v = payload['violation']
     case = v['case']
+    if v['stream'] == 'utf8':
+        c = bytes.fromhex(case['hex'])
+        got = hx(c.decode('utf-8', errors='replace').encode('utf-8'))
+        r = ctx.driver.ask({'p': 'C01', 'k': 'utf8', 'hex': case['hex']})
+        return {'stream': 'utf8', 'impl': got, 'model': r['out'], 'fails': got != r['out']}
+    if v['stream'] == 'big':
+        r, impl = check_big(ctx, case)
+        return {'stream': 'big', 'impl': _brief(impl), 'expect': _brief(r.get('expect')), 'model': _brief(r.get('model')),
+                'fails': impl is not None and _big_fails(r, impl) is not None}
     if v['stream'] == 'ast':
         r = ctx.driver.ask({'p': 'C01', 'k': 'ast', 'ast': case['ast'], 'queries': case['queries'], 'tail': case.get('tail', 0)})
         data = bytes.fromhex(r['bytes'])
         impl = run_impl(lambda: impl_observe(data, case['queries']))
-        return {'stream': 'ast', 'bytes': r['bytes'], 'impl': impl, 'expect': r['expect'], 'model': r['model'],
-                'fails': impl != r['expect'] or impl != r['model']}
+        # the property comparison applies inside wfZ with valid UTF-8 names (and to the files without a name table, the
+        # known finding); the correspondence applies to every image
+        bad = any(bytes.fromhex(x['name']).decode('utf-8', errors='replace').encode('utf-8') != bytes.fromhex(x['name'])
+                  for x in case['ast']['sections'])
+        in_domain = (r.get('wf') and not bad) or (not r.get('wf') and r.get('wfN'))
+        return {'stream': 'ast', 'bytes': r['bytes'], 'impl': impl, 'expect': r['expect'], 'model': r['model'], 'in_domain': bool(in_domain),
+                'fails': (in_domain and impl != r['expect']) or impl != r['model']}
     data = bytes.fromhex(case['hex'])
     impl = run_impl(lambda: impl_observe(data, []))
     r = ctx.driver.ask({'p': 'C01', 'k': 'raw', 'hex': case['hex']})
     return {'stream': 'raw', 'impl': impl, 'model': r['model'], 'fails': impl != r['model']}
 
 
-FINDINGS = {}
+def _no_name_table(v):
+    """The input class of the known finding `no-name-table`, decided on the generated description (sections, e_shstrndx =
+    SHN_UNDEF stored directly, section 0 without bytes, every section nameless) — and, so that nothing else hides behind
+    it, only when the report differs from the expectation in section names (and what depends on them: the object kind,
+    lookups by name) alone."""
+    if v.get('kind') != 'property' or v.get('stream') != 'ast':
+        return False
+    a = v['case']['ast']
+    secs = a['sections']
+    if not (len(secs) > 0 and a['shstrndx'] == 0 and not a['xShstrndx'] and secs[0].get('body') is None
+            and all('rep' not in s and s['name'] == '' and s['nameOff'] == 0 for s in secs)):
+        return False
+    e, g = v.get('expect'), v.get('got')
+    if not (isinstance(e, dict) and isinstance(g, dict) and 'ok' in e and 'ok' in g):
+        return False
+    e, g = e['ok'], g['ok']
+    if any(e[k] != g[k] for k in ('elfclass', 'little_endian', 'header', 'segments')) or len(e['sections']) != len(g['sections']):
+        return False
+    return all(x[2] == y[2] for x, y in zip(e['sections'], g['sections']))
+
+
+FINDINGS = {'no-name-table': _no_name_table}
